@@ -157,7 +157,7 @@ impl ServerState {
         };
 
         let mut lock = self.handlers.write();
-        lock.retain(|key, _| uris.contains(key));
+        lock.retain(|key, _| !uris.contains(key));
     }
 
     /// Attempts to get the message handler for a specific service and message.
